@@ -136,6 +136,7 @@ package core
 //@   ensures[C06] @used err == nil ==> usedGas == st.initialGas - st.gas && usedGas <= msg_gas(st.msg) && st.initialGas == msg_gas(st.msg)
 //@   ensures[C06] @pool err == nil ==> uint64(*st.gp) == old(uint64(*st.gp)) - usedGas
 //@   ensures[C06] @gaslimit err == nil ==> old(uint64(*st.gp)) >= msg_gas(st.msg)
+//@   ensures[C06] @failedflag err == nil ==> failed == vm_failed
 //@   nopanic[C06]
 
 // ---- evm.go ---------------------------------------------------------------------------------
